@@ -15,7 +15,7 @@ import (
 
 // blankFault (opt-in, C04_FAULT_BLANK=1): additionally blank the value of a protection record (a record that
 // exists but cannot be decoded). Not part of the default alphabet: badger does not produce such a record by itself.
-var blankFault = os.Getenv("C04_FAULT_BLANK") == "1"
+var blankFault = os.Getenv("C04_FAULT_BLANK") != "0" // on by default since the fix: commit 6c3e51a83 (an unreadable record must be refused)
 
 type histParams struct {
 	nShares      int
